@@ -16,6 +16,7 @@ import (
 	"testing"
 
 	"github.com/Comcast/rulio/core"
+	"github.com/Comcast/rulio/cron"
 	"pgregory.net/rapid"
 
 	"verif/harness/refmatch"
@@ -26,7 +27,7 @@ type c04Rule struct {
 	Id      string   `json:"id"`
 	When    string   `json:"when"`    // "const" | "arr" | "other"
 	Cond    string   `json:"cond"`    // "" | "f" | "join" | "or" | "none-match"
-	Actions []string `json:"actions"` // "value" | "out" | "throw" | "syntax"
+	Actions []string `json:"actions"` // "value" | "out" | "throw" | "syntax" | "addfact"
 	Serial  bool     `json:"serial"`
 }
 
@@ -35,6 +36,9 @@ type c04Case struct {
 	F     []interface{} `json:"f"` // facts {"f": v}
 	G     []interface{} `json:"g"` // facts {"g": v}
 	E     []interface{} `json:"e"` // event {"t":"go","e":[...]}
+	// Hooks installs the cron state hooks (as sys.System does for every
+	// location it serves).
+	Hooks bool `json:"hooks,omitempty"`
 }
 
 func genC04(t *rapid.T) c04Case {
@@ -66,12 +70,25 @@ func genC04(t *rapid.T) c04Case {
 		r.Cond = rapid.SampledFrom([]string{"", "", "f", "f", "join", "or", "none-match", "orcode", "notcode"}).Draw(t, l+".cond")
 		na := rapid.IntRange(1, 3).Draw(t, l+".nactions")
 		for j := 0; j < na; j++ {
-			r.Actions = append(r.Actions, rapid.SampledFrom([]string{"value", "value", "value", "out", "throw", "syntax"}).Draw(t, fmt.Sprintf("%s.a%d", l, j)))
+			r.Actions = append(r.Actions, rapid.SampledFrom([]string{"value", "value", "value", "out", "throw", "syntax", "addfact", "addfact"}).Draw(t, fmt.Sprintf("%s.a%d", l, j)))
 		}
 		r.Serial = rapid.IntRange(0, 3).Draw(t, l+".serial") == 0
 		c.Rules = append(c.Rules, r)
 	}
+	c.Hooks = rapid.Bool().Draw(t, "hooks")
 	return c
+}
+
+// c04MadeId is the id of the fact an "addfact" action writes: one per
+// (rule, action, bindings).
+func c04MadeId(ruleId string, k int, b refmatch.Bindings) string {
+	part := func(v string) string {
+		if x, bound := b[v]; bound {
+			return fmt.Sprint(x)
+		}
+		return "_"
+	}
+	return fmt.Sprintf("m/%s/%d/%s,%s,%s", ruleId, k, part("?x"), part("?y"), part("?z"))
 }
 
 const c04Guard = "x: (typeof x === 'undefined' ? '__unbound__' : x), y: (typeof y === 'undefined' ? '__unbound__' : y), z: (typeof z === 'undefined' ? '__unbound__' : z)"
@@ -83,6 +100,9 @@ func c04ActionCode(ruleId string, k int, kind string) string {
 		return obj
 	case "out":
 		return fmt.Sprintf("Env.out('%s/%d'); %s", ruleId, k, obj)
+	case "addfact":
+		// writes a fact of its own into the location, then returns like "value"
+		return fmt.Sprintf("var u = function(v) { return typeof v === 'undefined' ? '_' : v; }; var mid = 'm/' + ruleId + '/%d/' + [u(typeof x === 'undefined' ? undefined : x), u(typeof y === 'undefined' ? undefined : y), u(typeof z === 'undefined' ? undefined : z)].join(','); Env.AddFact(mid, {made: mid}); %s", k, obj)
 	case "throw":
 		return fmt.Sprintf("var marker%d = 1; throw new Error('boom %s/%d');", k, ruleId, k)
 	default:
@@ -141,6 +161,10 @@ func runC04(c c04Case) *vlib.Outcome {
 	event := M{"t": "go", "e": A(c.E)}
 	for _, kind := range []string{"indexed", "linear"} {
 		w := newWorld(kind, nil, o)
+		if c.Hooks {
+			w.hooks = func(st core.State) { cron.AddHooks(newCtx(), nullCron{}, st) }
+			o.Label("state-hooks")
+		}
 		w.open("L")
 		for _, v := range c.F {
 			w.addFact("L", "", M{"f": v})
@@ -175,6 +199,7 @@ func runC04(c c04Case) *vlib.Outcome {
 		type expExec struct {
 			ok    bool // action succeeds
 			out   string
+			made  string // id of the fact the action writes
 			bind  refmatch.Bindings
 			count int
 		}
@@ -204,7 +229,10 @@ func runC04(c c04Case) *vlib.Outcome {
 						ex := c04Exec{r.Id, refmatch.Key(b2), c04ActionCode(r.Id, k, a)}
 						e := expected[ex]
 						if e == nil {
-							e = &expExec{ok: a == "value" || a == "out", bind: b2}
+							e = &expExec{ok: a == "value" || a == "out" || a == "addfact", bind: b2}
+							if a == "addfact" {
+								e.made = c04MadeId(r.Id, k, b2)
+							}
 							if a == "out" {
 								e.out = fmt.Sprintf("%s/%d", r.Id, k)
 							}
@@ -237,6 +265,7 @@ func runC04(c c04Case) *vlib.Outcome {
 		_ = anySerial
 
 		ctx := newCtx()
+		ctx.SetLoc(w.locs["L"])
 		outs := make(chan interface{}, 1024)
 		ctx.AddProp("out", outs)
 		work, cond := w.locs["L"].ProcessEvent(ctx, core.Map(event))
@@ -369,6 +398,33 @@ func runC04(c c04Case) *vlib.Outcome {
 			sort.Strings(wantOuts)
 			if strings.Join(gotOuts, "|") != strings.Join(wantOuts, "|") {
 				o.Fail("OUT_MISMATCH", "%s: Env.out received %v, expected %v", when, gotOuts, wantOuts)
+			}
+			// the facts written by the actions: exactly one per execution
+			wantMade := map[string]bool{}
+			for _, e := range expected {
+				if e.made != "" {
+					wantMade[e.made] = true
+				}
+			}
+			srs, err := w.locs["L"].SearchFacts(newCtx(), core.Map{"made": "?m"}, false)
+			if err != nil {
+				o.Fail("SEARCH_ERROR", "%s: searching for the facts written by the actions failed: %v", when, err)
+				return o
+			}
+			gotMade := map[string]bool{}
+			for _, sr := range srs.Found {
+				gotMade[sr.Id] = true
+				if !wantMade[sr.Id] {
+					o.Fail("UNEXPECTED_ACTION_WRITE", "%s: fact %q was written by an action execution that was not expected", when, sr.Id)
+				}
+			}
+			for id := range wantMade {
+				if !gotMade[id] {
+					o.Fail("ACTION_WRITE_MISSING", "%s: the action execution that writes fact %q completed, but the fact is not in the location (found %d such facts)", when, id, len(gotMade))
+				}
+			}
+			if len(wantMade) >= 2 {
+				o.Label("actions-write-facts")
 			}
 		} else {
 			// serial failure: executed set is a subset, no duplicates
